@@ -71,8 +71,29 @@ func (in *interp) dispatchSpecial(fr *frame, fn *ssa.Function, args []value) (va
 		}
 	}
 	if conc {
-		if r, ok := in.callNative(fn, args); ok {
+		// a callback (sort.Search, ...) may turn out to compute with symbolic values: the native
+		// call is abandoned then and the callee is interpreted where its package allows that
+		r, ok, symbolicCallback := func() (r value, ok bool, sc string) {
+			defer func() {
+				if x := recover(); x != nil {
+					if b, isB := x.(bridgeSymbolic); isB {
+						r, ok, sc = nil, false, b.why
+						return
+					}
+					panic(x)
+				}
+			}()
+			r, ok = in.callNative(fn, args)
+			return r, ok, ""
+		}()
+		if ok {
 			return r, true
+		}
+		if symbolicCallback != "" {
+			if fn.Blocks != nil && (fi.fallback || fn.Synthetic != "") {
+				return nil, false
+			}
+			panic(unsupported("bridge result: " + symbolicCallback))
 		}
 	}
 	if fn.Blocks != nil && (fi.fallback || fn.Synthetic != "") {
